@@ -210,9 +210,10 @@ class MergeEngine:
         )
 
         if o.offset != "/":
-            # wrap the results of new_cset to pass through an offset generator
-            o.cset_sources["old_cset"] = post_curry(
-                o.generate_offset_cset, o.cset_sources["old_cset"]
+            # the recorded contents carry no offset; apply it before they are
+            # intersected with the livefs (as replace() does)
+            o.cset_sources["raw_old_cset"] = post_curry(
+                o.generate_offset_cset, o.cset_sources["raw_old_cset"]
             )
 
         o.old = pkg
